@@ -1,10 +1,10 @@
 --------------------------- MODULE Trace_Editing ---------------------------
 (* impl -> spec: validates recorded programs of editing calls run against lopdf (c11 record, and  *)
 (* c11 replay of the behaviours TLC generated).  One record per event:                             *)
-(*   [ev |-> "Start", objects, trailer, max_id, bms, pages, pc, er, content]   a new program:      *)
+(*   [ev |-> "Start", objects, trailer, max_id, bms, pages, pc, po, er, content]   a new program:  *)
 (*        the full projected document, lopdf's page_iter() / get_page_content() per page, the       *)
 (*        driver's own reading of the resources in effect, and the content the generator declared   *)
-(*   [ev |-> "Call", c, res, set, del, trailer, max_id, bms, pages, pc, er]     one public call:    *)
+(*   [ev |-> "Call", c, res, set, del, trailer, max_id, bms, pages, pc, po, xn, er]  one public call *)
 (*        arguments, result and the projected state after it (objects as a delta: set / del)        *)
 (*   [ev |-> "Panic", c, msg]                                                  the call panicked    *)
 (* The trace spec carries the document and the ghost state, binds each Call to its action (the     *)
@@ -52,11 +52,24 @@ Inconsistent(r, d, B) ==
     LET er == PairsToFn(r.er) IN
     \E p \in RangeOf(B.pp) : p \notin DOMAIN er \/ RangeOf(er[p]) # ResNames(d.objs, p)
 
+\* what the driver saw of the post-state through lopdf's decoder: every page's operation sequence
+\* (Content::decode of get_page_content, one token per operation; Editing!Undec if it does not decode)
+\* and the name under which an insert_* call registered its new object (as key text and as bytes)
+Seen(r) == [ops |-> PairsToFn(r.po), xn |-> r.xn]
+
+\* the impl-shaped layer predicts the document up to the encoding flag of streams (whether flate pays
+\* off depends on the bytes)
+SameDoc(a, b) ==
+    /\ DOMAIN a.objs = DOMAIN b.objs /\ a.trailer = b.trailer /\ a.max_id = b.max_id /\ a.bms = b.bms
+    /\ \A id \in DOMAIN a.objs :
+          LET x == a.objs[id] y == b.objs[id] IN
+          IF x.k = "stream" /\ y.k = "stream" THEN x.d = y.d /\ x.c = y.c ELSE x = y
+
 Say(i, v, tags) == PrintT(<<"VERDICT", ToJson([i |-> i, v |-> v, tags |-> tags])>>)
 
 Summary(tags) == IF Violations(tags) # {} THEN "violation" ELSE IF tags # {} THEN "ok-drift" ELSE "ok"
 
-Init == l = 1 /\ doc = Blank /\ aux = Aux(Blank) /\ gh = GhostOf(Aux(Blank)) /\ live = FALSE
+Init == l = 1 /\ doc = Blank /\ aux = Aux(Blank) /\ gh = GhostOf(Aux(Blank), <<>>) /\ live = FALSE
 
 Start ==
     /\ l <= Len(Recs) /\ Recs[l].ev = "Start"
@@ -66,7 +79,7 @@ Start ==
            decl == PairsToFn(r.content)
            tags == JudgeState(d, B, decl) \cup Observed(r, d, B) \cup (IF B.sound THEN {} ELSE {"start.unsound"})
        IN /\ IF Inconsistent(r, d, B) THEN Say(l, "spec-inconsistent", {"er"}) ELSE Say(l, Summary(tags), tags)
-          /\ doc' = d /\ aux' = B /\ gh' = [issued |-> {}, content |-> B.content]
+          /\ doc' = d /\ aux' = B /\ gh' = [issued |-> {}, content |-> B.content, ops |-> PairsToFn(r.po)]
     /\ live' = TRUE /\ l' = l + 1
 
 CallEv ==
@@ -78,9 +91,11 @@ CallEv ==
        IN /\ IF ~live THEN Say(l, "ok-outside-domain", {"after-panic"})
              ELSE IF ~Pre(doc, aux, gh, c) THEN Say(l, "ok-outside-domain", {})
              ELSE IF Inconsistent(r, post, B) THEN Say(l, "spec-inconsistent", {"er"})
-             ELSE LET j == Judge(doc, aux, gh, c, r.res, post, B)
-                      m == Impl(doc, c, DevAsIs)
-                      drift == IF m.doc = post /\ m.res = r.res THEN {} ELSE {"drift.model"}
+             ELSE LET j == Judge(doc, aux, gh, c, r.res, post, B, Seen(r))
+                      m == Impl(doc, c, DevAsIs, gh.ops)
+                      \* (no prediction where the decoder read only part of the page's bytes)
+                      blind == IsInsert(c) /\ c.id \in DOMAIN gh.ops /\ gh.ops[c.id] = Partial
+                      drift == IF blind \/ (SameDoc(m.doc, post) /\ m.res = r.res) THEN {} ELSE {"drift.model"}
                       tags == j.tags \cup Observed(r, post, B) \cup drift
                   IN Say(l, Summary(tags), tags)
           /\ doc' = post /\ aux' = B
@@ -88,7 +103,7 @@ CallEv ==
                                [] c.op = "Replace" -> gh.issued \ {c.id}
                                [] c.op \in Rekeying -> {}
                                [] OTHER -> gh.issued
-                   IN [issued |-> iss, content |-> B.content]
+                   IN [issued |-> iss, content |-> B.content, ops |-> PairsToFn(r.po)]
     /\ l' = l + 1 /\ UNCHANGED live
 
 PanicEv ==
